@@ -10,6 +10,7 @@ import (
 	"os"
 	"strconv"
 
+	"verif/harness/internal/conc"
 	"verif/harness/internal/core"
 	_ "verif/harness/internal/props"
 )
@@ -48,6 +49,8 @@ func main() {
 		os.Exit(core.WorkerMain(os.Args[2:]))
 	case "repro":
 		os.Exit(core.ReproMain(os.Args[2:]))
+	case "cold":
+		os.Exit(conc.ColdMain(os.Args[2:]))
 	case "replay":
 		os.Exit(core.ReplayMain(os.Args[2:]))
 	case "list":
